@@ -322,6 +322,16 @@ def specialise_repo(repo) -> list:
                             del cands[q][p]
                             changed = True
     done = []
+    # options kept on the instance: `self.flag = <added parameter>` in __init__
+    inst_opts = {}      # class qual -> {attribute: default expr}
+    for q, fn, mi in funcs:
+        mp = cands.get(q)
+        if not mp or not q.endswith(".__init__"):
+            continue
+        for st in fn.body:
+            if isinstance(st, ast.Assign) and len(st.targets) == 1 and isinstance(st.targets[0], ast.Attribute) and isinstance(st.targets[0].value, ast.Name) \
+                    and st.targets[0].value.id == "self" and isinstance(st.value, ast.Name) and st.value.id in mp:
+                inst_opts.setdefault(q.rsplit(".", 1)[0], {})[st.targets[0].attr] = mp[st.value.id]
     for q, fn, mi in funcs:
         mp = cands.get(q)
         if not mp:
@@ -332,6 +342,31 @@ def specialise_repo(repo) -> list:
             done.append((q, p, ast.unparse(d)))
     if not done:
         return []
+    # an instance option that nothing else in the package stores is that constant wherever the class reads it
+    if inst_opts:
+        stores = {}
+        for q0, fn0, mi0 in funcs:
+            for x in ast.walk(fn0):
+                if isinstance(x, ast.Attribute) and isinstance(x.ctx, (ast.Store, ast.Del)):
+                    stores[x.attr] = stores.get(x.attr, 0) + 1
+                if isinstance(x, ast.Call) and isinstance(x.func, ast.Name) and x.func.id in ("setattr", "delattr") and len(x.args) >= 2 and isinstance(x.args[1], ast.Constant):
+                    stores[x.args[1].value] = stores.get(x.args[1].value, 0) + 2
+        for cq, attrs in inst_opts.items():
+            keep = {a: d for a, d in attrs.items() if stores.get(a, 0) == 1}
+            if not keep:
+                continue
+
+            class _SelfAttr(ast.NodeTransformer):
+                def visit_Attribute(self, n):
+                    self.generic_visit(n)
+                    if isinstance(n.ctx, ast.Load) and isinstance(n.value, ast.Name) and n.value.id == "self" and n.attr in keep:
+                        return ast.copy_location(ast.Constant(value=_value(keep[n.attr])), n)
+                    return n
+            for q0, fn0, mi0 in funcs:
+                if q0.startswith(cq + ".") and "<locals>" not in q0:
+                    fn0.body = [_SelfAttr().visit(st) for st in fn0.body]
+            for a, d in keep.items():
+                done.append((cq, "self." + a, ast.unparse(d)))
     # call sites: drop arguments that pass the default of a specialised parameter
     for q0, fn0, mi0 in funcs:
         for c in ast.walk(fn0):
